@@ -387,6 +387,12 @@ PoolStep(ln) ==
     [] ln.op = "Deposit"    -> NoCalls(ln.st) /\ PFinish(DepositF(S, a.acct, a.amt).st, ln)
     [] ln.op = "SettleMode" -> NoCalls(ln.st) /\ PFinish(SettleModeF(S, a.fail).st, ln)
     [] ln.op = "Ping"       -> ln.r.ok /\ NoCalls(ln.st) /\ PFinish(S, ln)
+    [] ln.op = "Status"     ->
+         /\ A("status", "pool_status failed", ln.r.ok)
+         /\ A("status", "a cached status answer must be the cached one, a fresh one must describe the store",
+              IF StatusFresh(S) THEN StatusValOK(S, ln.r.val) ELSE ln.r.val = S.statc.val)
+         /\ NoCalls(ln.st)
+         /\ PFinish(StatusF(S, ln.r.val), ln)
     \* full stack: a real agent gets its own connection; what it then asks of the pool is logged
     \* as ordinary Connect / Update / Peer lines before the line of the operation that triggered it
     [] ln.op = "AgentNew"   -> NoCalls(ln.st) /\ PFinish(OpenF(S, a.conn, "ack", a.host).st, ln)
@@ -400,7 +406,7 @@ PoolStep(ln) ==
     [] ln.op = "Withdraw"   -> WithdrawStep(ln)
     [] ln.op = "Account"    -> AccountStep(ln)
 
-IsPoolOp(op) == op \in {"AgentNew", "AgentPeers", "AgentStart", "AgentUpdate", "AgentStop", "Open", "Mode", "Close", "Deposit", "SettleMode", "Ping", "Connect", "Host", "Client",
+IsPoolOp(op) == op \in {"Status", "AgentNew", "AgentPeers", "AgentStart", "AgentUpdate", "AgentStop", "Open", "Mode", "Close", "Deposit", "SettleMode", "Ping", "Connect", "Host", "Client",
                         "Update", "Peer", "AddNode", "Withdraw", "Account"}
 
 \* store operations issued directly on the pool's store keep their meaning;
